@@ -141,6 +141,7 @@ def gen_case(rng, tier="quick"):
         "rmode": rng.choice(disk.READER_MODES),
         "bufsize": rng.choice((1, 7, 16, 64, 512, 8192)),
         "strided": rng.random() < 0.1,
+        "backing": "path" if rng.random() < 0.2 else "memfd",
     }
 
 
@@ -244,6 +245,7 @@ def real_save(case, d, log, mode=None):
 
 
 HELD = []  # (case, loaded) of the earlier files of the current run
+BACKING = ["memfd"]  # what the torn files of the current C12 case live on
 
 
 class SaveRaised(Exception):
@@ -334,7 +336,7 @@ def pick_files(rng, tier):
 def c10_execute(case, stats, log):
     prop = "C10"
     case = expand(case)
-    with disk.SimDisk() as d:
+    with disk.SimDisk(backing=case.get("backing", "memfd")) as d:
         f = real_save(case, d, log)
         if not f.append:
             disk.check_log_reproduces(f.ops, d)
@@ -370,6 +372,7 @@ def c10_execute(case, stats, log):
             stats.count("index_derived_cases")
         stats.count("roundtrips")
         stats.count("wmode_" + case["wmode"])
+        stats.count("backing_" + case.get("backing", "memfd"))
         stats.count("rmode_" + case["rmode"])
         stats.count("profile_" + word_profile(case))
         stats.count("c_level_blocks", sum(1 for o in f.ops if o[0] == "c"))
@@ -535,7 +538,7 @@ def c11_run(base_seed, idx, stats, opts):
 
 def _must_reject(prop, content, where, rmode, stats, log, full_len, on_disk=None):
     """load() of the torn state must raise.  content: bytes for a fresh file, or None with on_disk set."""
-    d = disk.SimDisk(content) if on_disk is None else on_disk
+    d = disk.SimDisk(content, backing=BACKING[0]) if on_disk is None else on_disk
     size = len(content) if on_disk is None else d.size()
     try:
         try:
@@ -650,6 +653,7 @@ def live_faults(prop, case, full, call_indexes, rmode, stats, log):
 def c12_execute(case, stats, log, only=None):
     """only: optional {"fault": "crash"|"fulldisk", "k": int, "mode": str} to replay one fault."""
     prop = "C12"
+    BACKING[0] = case.get("backing", "memfd")
     if is_big(case):
         return c12_big(case, stats, log)
     rmode = case["rmode"]
